@@ -229,6 +229,12 @@ ENGINES["glist"]["configs"]["quick"] += [{"cfg": "glist_qdup.cfg", "module": "MC
 ENGINES["map_mv"]["configs"]["quick"] += [mapcfg("map_mv_s_samectx4.cfg", 1, 2)]
 ENGINES["map_map_mv"]["configs"]["quick"] += [mapcfg("map_map_mv_s_inner.cfg", 1, 1)]
 
+# ---- shapes beyond 3 replicas / depth 2 (found missing by the hard-mode seeds) -------------------------
+ENGINES["orswot"]["configs"]["quick"] += [orcfg("orswot_s_4adders.cfg"),      # four actors witness one member, deliveries + merges among 4 replicas
+                                          orcfg("orswot_s_samectx4m.cfg")]    # same-context removes, 4 replicas, WITH merge transitions (hybrid)
+ENGINES["ident"]["configs"]["quick"] += [{"cfg": "ident_q3.cfg", "module": "MC_Ident.tla", "vectors": True, "invariants": ["OrderOK", "DenseOK"]}]
+ENGINES["clocks"]["configs"]["quick"] += [{"cfg": "clocks_q4.cfg", "module": "MC_Clocks.tla", "vectors": True, "invariants": ["OrderOK", "LatticeOK", "ForgetOK", "DotOK"]}]
+
 # ---- thorough tier = quick configs + larger exhaustive models ----------------------------------
 def _t(engine, extra):
     ENGINES[engine]["configs"]["thorough"] = list(ENGINES[engine]["configs"]["quick"]) + extra
